@@ -777,9 +777,13 @@ func (tree *MutableTree) SaveVersion() ([]byte, int64, error) {
 		}
 	} else {
 		if tree.root.nodeKey != nil {
-			// it means there are no updated nodes
-			if err := tree.ndb.SaveRoot(version, tree.root.nodeKey); err != nil {
-				return nil, 0, err
+			// it means there are no updated nodes; a root that is already keyed for this very
+			// version was queued by an earlier attempt whose commit failed and is still pending
+			// in the batch under its own key: a reference would overwrite it with itself
+			if tree.root.nodeKey.version != version {
+				if err := tree.ndb.SaveRoot(version, tree.root.nodeKey); err != nil {
+					return nil, 0, err
+				}
 			}
 			// it means the reference node is a legacy node
 			if tree.root.isLegacy {
